@@ -36,9 +36,11 @@ REC = ("rec",)
 D = []
 
 
-def drv(name, fam, src, gen, nd=(1, 0, 2), dt=NUM, exempt=None, func=None, valuation="", slow=False, n=7):
+def drv(name, fam, src, gen, nd=(1, 0, 2), dt=NUM, exempt=None, func=None, valuation="", slow=False, n=10, needs=None):
+    """needs: inventory key ("alias:qualname", see c15_translate) of a callable that exists only in some trees (a helper
+    introduced by a fix: commit); the driver is skipped, with a note, on a tree that does not have it"""
     D.append(dict(name=name, fam=fam, src=src.strip("\n") + "\n", gen=gen, nd=nd, dt=dt, exempt=exempt or {},
-                  func=func or name, valuation=valuation, slow=slow, n=n))
+                  func=func or name, valuation=valuation, slow=slow, n=n, needs=needs))
 
 
 # ------------------------------------------------------------------ record files (binary + text)
@@ -87,9 +89,6 @@ drv("Recfile_write_rplus", "recfile",
     "def f(data, fname: str):\n    recfile.write(fname, data.copy(), delim=',')\n"
     "    r = Recfile(fname, 'r+', delim=',', dtype=data.dtype, nrows=data.size)\n    r.write(data)\n    r.close()\n",
     {"data": "rec"}, nd=(1,), dt=REC, func="Recfile.write", valuation="text, mode='r+' on an existing file")
-drv("Recfile_write_twice_txt", "recfile",
-    "def f(data, fname: str):\n    with Recfile(fname, 'w', delim=',') as r:\n        r.write(data)\n        r.write(data)\n",
-    {"data": "rec"}, nd=(1,), dt=REC, func="Recfile.write", valuation="text, the same table written twice")
 
 # ------------------------------------------------------------------ field operations
 drv("extract_fields", "fields", "def f(arr):\n    return numpy_util.extract_fields(arr, ['x', 'id'])\n", {"arr": "rec"}, dt=REC, valuation="strict=True")
@@ -315,9 +314,9 @@ drv("recfile_split_fields", "fields", "def f(data):\n    return recfile.Util.spl
     dt=REC, func="recfile.Util.split_fields", valuation="fields=[...], getnames=True")
 drv("sfile_reduce_array", "fields", "def f(data):\n    return sfile.reduce_array(data)\n", {"data": "rec"}, dt=REC, func="sfile.reduce_array")
 drv("recfile_to_native", "byteorder", "def f(array):\n    return recfile.Util.to_native(array)\n", {"array": "recnum"}, dt=REC,
-    func="recfile.Util.to_native", valuation="structured")
+    func="recfile.Util.to_native", valuation="structured", needs="recfile:to_native")
 drv("recfile_to_native_plain", "byteorder", "def f(array):\n    return recfile.Util.to_native(array)\n", {"array": "x"},
-    func="recfile.Util.to_native", valuation="plain")
+    func="recfile.Util.to_native", valuation="plain", needs="recfile:to_native")
 drv("recfile_to_native_inplace", "byteorder", "def f(array):\n    recfile.Util.to_native_inplace(array)\n", {"array": "x"},
     func="recfile.Util.to_native_inplace", exempt={"array": "in-place by name and docstring ('Convert to native byte ordering in place')"})
 drv("descr_to_native", "byteorder", "def f(array):\n    return numpy_util.descr_to_native(array.dtype.descr)\n", {"array": "recnum"}, dt=REC)
